@@ -984,6 +984,10 @@ def _find_self(
     if instance_i is not None and instance_i < len(args):
         return args[instance_i]
 
+    if instance_i is None and len(args) > 0:
+        # The instance is not necessarily called ``self``; it is the first positional argument then.
+        return args[0]
+
     return kwargs["self"]
 
 
